@@ -535,3 +535,6 @@ func (s *Sched) TaskPanics() []string {
 	}
 	return out
 }
+
+// InTask reports whether the calling goroutine is one of the scheduler's tasks.
+func (s *Sched) InTask() bool { return s.cur() != nil }
